@@ -1228,14 +1228,18 @@ inductive SendChoice where
 """
 
 
-def translate(repo):
-    """[(name, ok, lean text or reason)] for the current source tree"""
+def translate(repo, stage2=None):
+    """[(name, ok, lean text or reason)] for the current source tree; when `stage2` is a list, the
+    results of the effectful functions (tools/cxx2lean_eff.py) are appended to it"""
     specs = SPECS()
     try:
         hd = _headers_digest(repo)
     except OSError:
         hd = "?"
     jobs = sorted({(s[2], s[3]) for s in specs})
+    if stage2 is not None:
+        import cxx2lean_eff
+        jobs = sorted(set(jobs) | set(cxx2lean_eff.jobs()))
 
     def fetch(j):
         try:
@@ -1267,12 +1271,15 @@ def translate(repo):
             out.append((name, False, str(e)))
         except (KeyError, IndexError, TypeError, ValueError) as e:
             out.append((name, False, "unexpected AST shape (%s: %s)" % (type(e).__name__, e)))
+    if stage2 is not None:
+        import cxx2lean_eff
+        stage2.extend(cxx2lean_eff.translate(repo, [n for n, ok, _ in out if ok], lambda src, flt: asts[(src, flt)]))
     return out
 
 
-def render(repo):
-    parts = [HEADER]
-    for name, ok, text in translate(repo):
+def _render(header, results):
+    parts = [header]
+    for name, ok, text in results:
         if ok:
             parts.append(text)
         else:
@@ -1281,19 +1288,71 @@ def render(repo):
     return "\n".join(parts)
 
 
-def write(repo, lean_dir):
-    """regenerate Generated/Funcs.lean; written only when the content changed.  Returns the list of
-    untranslatable function names."""
-    txt = render(repo)
-    path = os.path.join(lean_dir, "SockModel", "Generated", "Funcs.lean")
+def render(repo):
+    return _render(HEADER, translate(repo))
+
+
+def render_both(repo):
+    """(text of Generated/Funcs.lean, text of Generated/Loops.lean)"""
+    import cxx2lean_eff
+    s2 = []
+    s1 = translate(repo, s2)
+    return _render(HEADER, s1), _render(LOOPS_HEADER, s2)
+
+
+def _write_if_changed(path, txt):
     os.makedirs(os.path.dirname(path), exist_ok=True)
     old = open(path).read() if os.path.exists(path) else None
     if old != txt:
         with open(path, "w") as f:
             f.write(txt)
-    return re.findall(r"^-- UNTRANSLATABLE (\S+):", txt, re.M)
+
+
+def write(repo, lean_dir):
+    """regenerate Generated/Funcs.lean (stage 1: leaf functions) and Generated/Loops.lean (stage 2: effectful
+    functions and loops); written only when the content changed.  Returns the list of untranslatable function names."""
+    t1, t2 = render_both(repo)
+    _write_if_changed(os.path.join(lean_dir, "SockModel", "Generated", "Funcs.lean"), t1)
+    _write_if_changed(os.path.join(lean_dir, "SockModel", "Generated", "Loops.lean"), t2)
+    return re.findall(r"^-- UNTRANSLATABLE (\S+):", t1 + t2, re.M)
+
+
+LOOPS_HEADER = """/- GENERATED by tools/cxx2lean.py + tools/cxx2lean_eff.py from the clang JSON AST of /repo/src on every run - do not edit.
+
+Stage 2 of the source-derived tie: the library's small EFFECTFUL functions and loops, in an explicit
+effect style.  Prelude (hand-written, lean/SockModel/Basic/GenEffects.lean): `M ω α := ω → Res α × ω`
+(`Res`: `ok v` | `thrown ⟨class, code⟩` | `halted`), `World ω` with one field per call that leaves the
+library.  Imported by Props/C16, C01 (tie theorems at their end) only.
+
+How the text below is obtained (TRUSTED part of the translator, in addition to Generated/Funcs.lean):
+ * `DoPoll(pfds, count, ms)` is `W.doPoll ms`, `Interrupted()` is `W.interrupted`, `Clock::now()` is
+   `W.clockNow`, `::send(fd, p, n, flags)` is `W.send off n` (off = offset of p from the `data`
+   parameter), `::recv(fd, p, n, flags)` is `W.recv n`, `SocketError()` is `W.socketError`; handles and
+   buffers that only travel to these calls (`fd`, `pfds`, `count`, `events`, `flags`) are dropped;
+ * sequencing is `M.bind` in C++ evaluation order (`&&` / `||` short-circuit; an expression with two
+   effectful operands in unspecified order is rejected); `throw X(..)` is `M.throw ⟨.X, code⟩` (message
+   dropped; `code` = the `std::error_code` argument of `system_error`, else 0); there is no `catch`;
+ * a call of another translated function is a call of its generated definition (same `W`, same `fuel`);
+   `ToMsec`, `DeadlineLimited_*` are the stage-1 definitions of Generated/Funcs.lean;
+ * locals are `let`s, an assignment introduces a new version of the name; a `DeadlineLimited` object
+   is its two fields (constructor = `Clocked_ctor_now` then `DeadlineLimited_deadline`; `Tick()` =
+   `Clocked_Tick`, both read from the AST of wait.h); a `std::string_view(p, n)` is (offset, length),
+   `remove_prefix(k)` adds k to the offset and subtracts it from the length (precondition k <= size());
+ * `do B while(c)`, `for(;;) B`, `while(c) B` become `<F>_loop<k>`: structural recursion on a fuel
+   counter `n` (`0 => M.halt`), arguments = the locals the loop assigns, `break` / the false condition
+   continue with the statements after the loop (inlined), `return` ends the function; the function
+   starts the loop with `n := fuel`.  `M.halt` (out of fuel, or the world stopped answering) is not a
+   behaviour of the C++ code: the tie theorems give the fuel that suffices.
+Anything outside the subset yields `-- UNTRANSLATABLE <name>: <reason>` and no definition. -/
+import SockModel.Basic.GenEffects
+import SockModel.Generated.Funcs
+set_option linter.unusedVariables false
+namespace SockModel.Gen
+"""
 
 
 if __name__ == "__main__":
     import sys
-    print(render(sys.argv[1] if len(sys.argv) > 1 else os.environ.get("VERIF_REPO", "/repo")))
+    _r = sys.argv[1] if len(sys.argv) > 1 and not sys.argv[1].startswith("-") else os.environ.get("VERIF_REPO", "/repo")
+    _t1, _t2 = render_both(_r)
+    print(_t2 if "--loops" in sys.argv else _t1)
